@@ -288,6 +288,10 @@ func (smf *SMFailed) UnmarshalXML(d *xml.Decoder, start xml.StartElement) error 
 				rcf := RemoteConnectionFailed{}
 				err = d.DecodeElement(&rcf, &tt)
 				smf.StreamErrorGroup = &rcf
+			case "reset":
+				r := Reset{}
+				err = d.DecodeElement(&r, &tt)
+				smf.StreamErrorGroup = &r
 			case "resource-constraint":
 				rc := ResourceConstraint{}
 				err = d.DecodeElement(&rc, &tt)
